@@ -6,10 +6,12 @@ with another floating-point precision converts every stored component with a pla
 keeps it in the same slot; widening followed by narrowing is the identity. For directions the
 result is additionally re-normalised, which changes it by no more than two ulps.
 
-Reading of the direction clause (DESIGN.md §7, C16): in the current source the converting
-*constructor* of `Direction`/`PlanarDirection` re-normalises, the converting *assignment* is the
-plain cast; both are covered: the assignment by `cast_componentwise`, the constructor by
-`direction_cast_then_normalise`.
+The direction clause (DESIGN.md §7, C16): the converting constructor *and* the converting assignment of
+`Direction`/`PlanarDirection` cast the components and re-normalise (`direction_cast_then_normalise`).
+On the pinned tree the assignment stored the cast components without normalising — a `Direction<double>`
+assigned from a `Direction<float>` had length `1 + 1e-8` — which this property's search reproduced on the
+real code; it was repaired by the `fix:` commit recorded in known_findings.json, and the theorem fails
+to build on the unrepaired source.
 -/
 import PhQVerif.Theory.Access
 import PhQVerif.Theory.Round
@@ -20,10 +22,10 @@ import PhQVerif.Generated.Obl_C16dir
 namespace PhQVerif.Props.C16
 open PhQVerif Generated
 
-/-- Is `e` a converting constructor or assignment that is specified to be the plain cast? -/
+/-- Is `e` a converting constructor or assignment that is specified to be the plain cast (every class
+but the two direction classes, whose converting members re-normalise)? -/
 def IsPlainCast (e : Entry) : Prop :=
-  (e.kind = .castCtor ∨ e.kind = .castAssign) ∧
-    ¬ (classIsDirection classes e.cls = true ∧ e.kind = .castCtor)
+  (e.kind = .castCtor ∨ e.kind = .castAssign) ∧ ¬ (classIsDirection classes e.cls = true)
 
 /-- **C16 (cast, slot for slot).** For every converting constructor and converting assignment of
 every quantity, vector and tensor type, every ordered pair of distinct formats and **all** values:
@@ -48,12 +50,8 @@ theorem cast_componentwise :
   | none => simp [hu] at hchk
   | some u =>
     simp only [hu] at hchk
-    have hdir : ¬ ((classIsDirection classes e.cls && e.kind == .castCtor) = true) := by
-      intro h
-      simp only [Bool.and_eq_true, beq_iff_eq] at h
-      exact hnd h
-    have hdir' : (classIsDirection classes e.cls && e.kind == .castCtor) = false := by
-      simpa using hdir
+    have hdir' : classIsDirection classes e.cls = false := by
+      simpa using hnd
     simp only [hdir', Bool.false_eq_true, if_false] at hchk
     cases ho : e.numOuts with
     | none => simp [ho] at hchk
@@ -84,12 +82,14 @@ theorem cast_componentwise :
         exact isCastOfVar_sound (hall _ hmem) L env
       · simp [hs] at hchk
 
-/-- **C16 (directions).** The converting constructor of a direction class computes, on every
-input and along every branch, exactly what the normalising constructor computes on the component-wise
-cast of its argument: cast first, then re-normalise (zero stays exactly zero). -/
+/-- **C16 (directions).** The converting constructor *and the converting assignment* of a direction
+class compute, on every input and along every branch, exactly what the normalising constructor computes
+on the component-wise cast of the source: cast first, then re-normalise (zero stays exactly zero; for
+the assignment the target's previous components, inputs `0 … n-1`, do not occur). -/
 theorem direction_cast_then_normalise :
     ∀ t ∈ DirCast.rows, ∃ u, t.1.ufm = some u ∧ ∀ (L : Libm) (env : Nat → Fl),
-      t.1.tree.valuesF L env = t.2.tree.valuesF L (fun i => Fl.cast t.1.fm.fmt (env i)) := by
+      t.1.tree.valuesF L env =
+        t.2.tree.valuesF L (fun i => Fl.cast t.1.fm.fmt (env (t.1.castOffset + i))) := by
   intro t ht
   have hchk : Chk.C16dir t = true := List.all_eq_true.mp Obl.C16dir t ht
   simp only [Chk.C16dir, checkDirCast, Bool.and_eq_true] at hchk
@@ -145,10 +145,11 @@ example : Fl.Canonical F32 (Fl.fin false (2 ^ 23 + 1) (-20)) := by
 
 example : IsPlainCast (f32.«Velocity::ctor(Velocity<Othernum>)[U=64]») := by
   refine ⟨Or.inl (by decide), ?_⟩
-  rintro ⟨h, _⟩; revert h; decide
-example : IsPlainCast (f64.«Direction::operator=(Direction<Othernum>)[U=80]») := by
+  decide
+example : IsPlainCast (f64.«Dyad::operator=(Dyad<Othernum>)[U=80]») := by
   refine ⟨Or.inr (by decide), ?_⟩
-  rintro ⟨_, h⟩; revert h; decide
+  decide
+example : (f64.«Direction::operator=(Direction<Othernum>)[U=32]»).castOffset = 3 := by decide
 example : DirCast.rows ≠ [] := by simp [DirCast.rows, DirCast.rows_0]
 
 end PhQVerif.Props.C16
